@@ -207,18 +207,28 @@ C11Step ==
 
 \* -- C13: reconfiguration --
 ResSame(a, b) == \A c \in DOMAIN a \cap DOMAIN b : a[c].res = b[c].res
+\* with a pool oversubscribed (F-C03-1) re-instating the grants fails and everything is re-allocated from scratch
+OverSub == IF IsTA /\ pol # <<>> /\ Bad_SharedCapacity(TAPools(pol), TAGrants(pol)) # {} THEN "-while-pool-oversubscribed" ELSE ""
 C13Step ==
     IF E.ev # "Reconfigure" THEN {}
-    ELSE (IF Ok /\ Get(E, "same", FALSE) /\ ~ResSame(ctrs, ctrs')
-          THEN {V("Act_ReconfigSameIsNoop", "unchanged-config-changed-container-resources",
-                  {c \in DOMAIN ctrs \cap DOMAIN ctrs' : ctrs[c].res # ctrs'[c].res})} ELSE {})
-         \cup (IF Ok /\ Get(E, "same", FALSE) /\ rt' # rt
-               THEN {V("Act_ReconfigSameIsNoop", "unchanged-config-pushed-different-resources", {c \in DOMAIN rt : rt'[c] # rt[c]})} ELSE {})
+    ELSE LET chg   == {c \in DOMAIN ctrs \cap DOMAIN ctrs' : ctrs[c].res # ctrs'[c].res}
+             chgRt == {c \in DOMAIN rt : rt'[c] # rt[c]}
+             \* consequences of known roots: a starved pool (F-C03-1) whose containers get their cpuset emptied, and changes
+             \* a failed request left pending (F-C05-1/2) that the re-configuration flushes
+             emptiedOnly == \A c \in chg : ctrs'[c].res.cpus = {} /\ [ctrs'[c].res EXCEPT !.cpus = ctrs[c].res.cpus] = ctrs[c].res
+         IN
+         (IF Ok /\ Get(E, "same", FALSE) /\ chg # {}
+          THEN {V("Act_ReconfigSameIsNoop", IF emptiedOnly THEN "unchanged-config-emptied-cpuset-in-starved-pool"
+                                            ELSE IF chg \subseteq pend THEN "unchanged-config-flushed-changes-left-pending"
+                                            ELSE "unchanged-config-changed-container-resources" \o OverSub, chg)} ELSE {})
+         \cup (IF Ok /\ Get(E, "same", FALSE) /\ chgRt # {}
+               THEN {V("Act_ReconfigSameIsNoop", IF chgRt \subseteq pend THEN "unchanged-config-flushed-changes-left-pending"
+                                                 ELSE "unchanged-config-pushed-different-resources" \o OverSub, chgRt)} ELSE {})
          \cup (IF E.err /\ ~ResSame(ctrs, ctrs')
-               THEN {V("Act_RejectedIsNoop", "rejected-at-" \o Get(E, "rejkind", "unknown") \o "-changed-container-resources",
+               THEN {V("Act_RejectedIsNoop", "rejected-at-" \o Get(E, "rejkind", "unknown") \o "-changed-container-resources" \o OverSub,
                        {c \in DOMAIN ctrs \cap DOMAIN ctrs' : ctrs[c].res # ctrs'[c].res})} ELSE {})
          \cup (IF E.err /\ (pol' # pol \/ mem' # mem)
-               THEN {V("Act_RejectedIsNoop", "rejected-at-" \o Get(E, "rejkind", "unknown") \o "-changed-policy-state", E.ev)} ELSE {})
+               THEN {V("Act_RejectedIsNoop", "rejected-at-" \o Get(E, "rejkind", "unknown") \o "-changed-policy-state" \o OverSub, E.ev)} ELSE {})
 \* twin comparison (done by the driver on three runs: with the rejected update, without, and a control without):
 \* identical follow-up requests give identical replies and states whenever the control agrees
 C13Twin ==
@@ -239,7 +249,10 @@ SigOf(pw) ==
     LET pred == pw[1]
         w    == pw[2]
         emptied(c) == c \in DOMAIN ctrs' /\ ctrs'[c].res.cpus = {}     \* the cache says "" = the runtime keeps what it had
-    IN IF pred = "Inv_SharedCapacity" /\ IsTA THEN
+    IN \* F-C13-5: with CPU pinning switched off the policy no longer tells cpusets; the runtime keeps what it was told before
+       IF pred \in {"Inv_ReservedOnlyReservedClass", "Inv_ToldWithinAllowed", "Inv_ExclNotInOthersTold"} /\ ~world'.pincpu
+       THEN "cpu-pinning-off-runtime-keeps-old-cpuset"
+       ELSE IF pred = "Inv_SharedCapacity" /\ IsTA THEN
             \* F-C03-1: the pool lost shared CPUs to an exclusive slice taken at one of its ancestors in this step
             \* (witness shape: some grant made at a strict ancestor holds exclusive CPUs of this pool's sharable supply)
             (IF \E g \in SetOf(pol'.grants) : g.pool \in AncOf(TAPools(pol'), w) /\ SetOf(g.excl) \cap TAPools(pol')[w].shar # {}
@@ -251,6 +264,7 @@ SigOf(pw) ==
        ELSE IF pred = "Inv_RuntimeEqualsCache" /\ w[2] = "mems" /\ w[1] \in DOMAIN ctrs' /\ ctrs'[w[1]].res.mems = {}
             THEN "cache-mems-emptied-runtime-keeps-old"
        ELSE IF pred = "Inv_ExclNotInOthersTold" /\ emptied(w[2]) THEN "other-cpuset-emptied-runtime-keeps-old"
+       ELSE IF pred = "Inv_ToldWithinAllowed" /\ emptied(w) THEN "cache-cpuset-emptied-runtime-keeps-old"
        ELSE IF pred = "Inv_ExclNotInOthersTold" /\ IsTA /\ ~\E g \in SetOf(pol'.grants) : g.c = w[2]
             THEN "other-container-holds-no-grant"
        \* F-C13-6: an accepted configuration change re-instates existing grants verbatim even when the new configuration
@@ -262,7 +276,12 @@ SigOf(pw) ==
             THEN "eligibility-changed-by-new-configuration"
        ELSE IF pred = "Inv_LiveHoldsGrant" THEN (IF E.err THEN "left-by-failed-" \o E.ev ELSE "after-" \o StepSig)
        ELSE IF pred \in {"Inv_RuntimeEqualsCache", "Inv_NothingPending"} THEN
-            (IF E.err THEN "left-by-failed-" \o E.ev ELSE "after-" \o StepSig)
+            (IF E.err
+             THEN "left-by-failed-" \o E.ev \o
+                  \* F-C05-5: with a pool oversubscribed (F-C03-1) even the identical configuration, and the revert, fail
+                  (IF E.ev = "Reconfigure" /\ IsTA /\ pol # <<>> /\ Bad_SharedCapacity(TAPools(pol), TAGrants(pol)) # {}
+                   THEN "-while-pool-oversubscribed" ELSE "")
+             ELSE "after-" \o StepSig)
        ELSE "after-" \o StepSig
 
 StateViols == C05State \cup (IF IsTA THEN TAState ELSE BalloonState(pol', ctrs', rt', rtlive', world', topo, SetOf(Get(E.st, "cpuclass", <<>>)), excused')) \cup C04State \cup C09State
